@@ -4,6 +4,8 @@ use crate::report::{Spec, WorkerReport};
 use crate::WorkerCtx;
 
 pub mod common;
+pub mod c14;
+pub mod c13;
 pub mod smoke;
 pub mod c01;
 pub mod c02;
@@ -28,6 +30,8 @@ pub fn plan(id: &str, tier: &str) -> Option<Plan> {
         "C01" => Some(Plan::new(if _t { 64 } else { 12 }, 1200)),
         "C02" => Some(Plan::new(if _t { 48 } else { 12 }, 1200)),
         "C03" => Some(Plan::new(if _t { 48 } else { 12 }, 900)),
+        "C14" => Some(Plan::new(if _t { 16 } else { 6 }, 900)),
+        "C13" => Some(Plan::new(if _t { 32 } else { 12 }, 1500)),
         _ => None,
     }
 }
@@ -37,6 +41,8 @@ pub fn spec(id: &str) -> Option<Spec> {
         "C01" => Some(c01::spec()),
         "C02" => Some(c02::spec()),
         "C03" => Some(c03::spec()),
+        "C14" => Some(c14::spec()),
+        "C13" => Some(c13::spec()),
         _ => None,
     }
 }
@@ -46,6 +52,8 @@ pub fn worker(ctx: &WorkerCtx) -> WorkerReport {
         "C01" => c01::worker(ctx),
         "C02" => c02::worker(ctx),
         "C03" => c03::worker(ctx),
+        "C14" => c14::worker(ctx),
+        "C13" => c13::worker(ctx),
         other => {
             let mut r = WorkerReport::default();
             r.inconclusive(format!("no worker for {}", other));
